@@ -1,6 +1,7 @@
 package lifecycle
 
 import (
+	"errors"
 	"fmt"
 	"sort"
 
@@ -313,6 +314,9 @@ func RunSteps(t *rapid.T, s *sc.Scenario, pr Profile) *sc.History {
 		hold = &h
 	}
 	e, err := sc.Begin(s)
+	if errors.Is(err, sc.ErrLeftover) {
+		return e.Finish()
+	}
 	if err != nil {
 		t.Fatalf("generator produced a project the loader rejects: %v\n%s", err, sc.YAML(s.Procs, false, 0))
 	}
